@@ -3,10 +3,17 @@
 Tie: translator G1 (Gen/Settings.lean + generated per-class theorems) AND correspondence: well-nested
 `with` programs with exceptions run on the real classes; raw class fields at every probe compared exactly
 with the Lean model; independently the property itself (store after == store before; inside a block the
-observer shows the argument) is checked on the real classes (spec oracle, no model involved).
+observer shows the argument; a field the block does NOT name shows the enclosing value / the documented default;
+entering a block changes no other class) is checked on the real classes (spec oracle, no model involved).
+
+Wave 3: subset programs for every multi-field setting (every subset of the fields, nested under every subset),
+multi-manager `with a, b[, c]:`, `contextlib.ExitStack`, `try/except` re-entry after a manager that failed to enter
+(`Model/SettingsExt.lean`, `XProg`), thread cells (ONE process-global store: cross-thread isolation is not claimed),
+decorator cell (the classes are not decorators).
 """
 import itertools
 import os
+import re as _re0
 import sys
 
 from lib import common as C
@@ -14,16 +21,28 @@ from lib import common as C
 ID = "C20"
 PROP_MODULES = ["GPVerif.Props.C20", "GPVerif.Gen.SettingsThms"]
 BUILD_TARGETS = ["GPVerif.Props.C20", "GPVerif.Gen.Settings"]
-RULE = ("well-nested with-programs over all exported settings classes (depth<=2 exhaustive over the listed argument "
-        "variants, raise injected at every body boundary; thorough adds depth 3); distinct = distinct program text; "
+RULE = ("well-nested with-programs over all public settings classes (depth<=2 exhaustive over the listed argument "
+        "variants, raise injected at every body boundary; thorough adds depth 3); for every multi-field setting every "
+        "subset of its fields (incl. none) nested under every subset, every field probed inside; multi-manager "
+        "`with a, b[, c]:`, ExitStack and try/except re-entry programs (a later manager failing in __init__ / __enter__); "
+        "thread interleavings and decorator cells; distinct = distinct program text; "
         "non-trivial = the program enters at least one block that changes a visible value")
 EXHAUSTIVE = True
 TRUSTED = ["translator harness/translate/g1_settings.py (Python ast -> Settings IR)",
-           "modelled not verified: Python's with/exception protocol (Prog.run), class-attribute lookup"]
+           "modelled not verified: Python's with/exception protocol (Prog.run / XProg.run: single and multi-manager with, "
+           "contextlib.ExitStack LIFO unwinding, try/except), class-attribute lookup, the GIL serialising thread events",
+           "hand-written specification tables in the translator: DOCUMENTED_CTOR_DEFAULTS, NONE_MEANS_KEEP, COMPOSITE_OBS"]
 ASSUMPTIONS = ["__exit__ is called on every exit path of a with body (Python semantics)",
                "deterministic_probes.probe_vectors is a cache, not a setting (writes dropped from the model)",
-               "settings objects are constructed and entered by the same with statement"]
+               "settings objects are constructed and entered by the same with statement (or ExitStack.enter_context call)",
+               "NOT CLAIMED: cross-thread isolation. The settings are process-global class attributes: a block entered by "
+               "thread A is visible in thread B, and blocks of two threads that are not globally well nested do not restore "
+               "(Props/C20: thread_block_visible_in_other_thread, threads_interleaved_not_scoped; thread cells compare the real "
+               "classes with that model, so a change to thread-local storage shows as a broken tie)",
+               "NOT CLAIMED: ExitStack.enter_context inside a with block nested in the ExitStack body (the manager outlives "
+               "the block: exitstack_escape_not_scoped); decorator use (the classes are not ContextDecorators: checked)"]
 
+_ALWAYS_KNOWN = "leak:cholesky_jitter._global_half_value"
 GEN = os.path.join(C.LEAN_DIR, "GPVerif", "Gen", "Settings.lean")
 _state = {}
 
@@ -43,15 +62,22 @@ def generate(ctx):
 
 # ------------------------------------------------------------------ real side
 
+def _unlisted_public(mod):
+    """public settings classes DEFINED in `mod` but missing from its `__all__` (min_fixed_noise): reachable as
+    `gpytorch.settings.<name>` and used by the library, hence part of the check."""
+    return [k for k, v in vars(mod).items()
+            if isinstance(v, type) and not k.startswith("_") and v.__module__ == mod.__name__
+            and hasattr(v, "__enter__") and hasattr(v, "__exit__") and k not in mod.__all__]
+
+
 def _real_classes():
     import gpytorch.settings as S
     import gpytorch.beta_features as B
     import linear_operator.settings as LS
     out = {}
-    for n in S.__all__:
-        out[n] = getattr(S, n)
-    for n in B.__all__:
-        out[n] = getattr(B, n)
+    for mod in (S, B):
+        for n in list(mod.__all__) + _unlisted_public(mod):
+            out[n] = getattr(mod, n)
     for n in ("_fast_covar_root_decomposition", "_fast_log_prob", "_fast_solves"):
         out[n] = getattr(LS, n)
     return out
@@ -111,7 +137,8 @@ class World:
         self.tr = tr
         self.real = _real_classes()
         self.names = list(self.real)
-        self.exported = [n for n in list(S.__all__) + list(B.__all__) if isinstance(self.real.get(n), type)]
+        self.exported = [n for mod in (S, B) for n in list(mod.__all__) + _unlisted_public(mod)
+                         if isinstance(self.real.get(n), type)]
         self.descs = {}
         for n, cls in self.real.items():
             fields = {}
@@ -136,7 +163,10 @@ class World:
                 obs["num_probe_vectors()"] = None
             self.descs[n] = {"fields": fields, "params": params, "observers": obs}
         self.atoms = list(tr.T.atom) if tr is not None else ["None"]
+        self._atom_ix = {}
+        self._obs = {}
         self.slots = [(n, f) for n in self.names for f in self.descs[n]["fields"]]
+        self._slot_objs = [(self.real[n], f) for n, f in self.slots]
         if tr is not None:
             # the model's slots, in the driver's dump order
             self.model_names = [tr.descs[k]["name"] for k in tr.order]
@@ -148,13 +178,24 @@ class World:
     def atom(self, v):
         if v is None:
             return "N"
-        c = canon(v)
-        if c not in self.atoms:
-            self.atoms.append(c)
-        return str(self.atoms.index(c))
+        k = (v.__class__, v)          # True / 1 / 1.0 are equal and hash alike: keep the type in the key
+        r = self._atom_ix.get(k)
+        if r is None:
+            c = canon(v)
+            if c not in self.atoms:
+                self.atoms.append(c)
+            r = self._atom_ix[k] = str(self.atoms.index(c))
+        return r
 
     def snapshot(self):
-        return tuple(self.atom(getattr(self.real[n], f)) for n, f in self.slots)
+        return tuple(self.atom(getattr(c, f)) for c, f in self._slot_objs)
+
+    def raw_list(self):
+        """raw class-field values in slot order (for the frame oracle: cheaper than `snapshot`)"""
+        return [getattr(c, f) for c, f in self._slot_objs]
+
+    def param_names(self, n):
+        return [p for p, _ in self.descs[n]["params"]]
 
     def project(self, snap):
         """restrict a reflective snapshot to the model's slots (driver order)"""
@@ -171,8 +212,10 @@ class World:
     def observers(self, n):
         """name -> callable for the visible value(s) of class n."""
         import torch
+        if n in self._obs:
+            return self._obs[n]
         cls = self.real[n]
-        obs = {}
+        obs = self._obs[n] = {}
         for oname in self.descs[n]["observers"]:
             if oname == "on()":
                 obs[oname] = cls.on
@@ -186,19 +229,49 @@ class World:
         return obs
 
 
+# Program items:
+#   'P' probe | 'R' raise | ('W', name, kwargs, body)                      single-manager with
+#   ('M', [(name, kwargs), …], body)      `with a(..), b(..)[, c(..)]: body`   (one real multi-manager statement)
+#   ('X', body)                           `with contextlib.ExitStack() as es: body`
+#   ('C', name, kwargs)                   `es.enter_context(name(**kwargs))`  (statement level of an 'X' body only)
+#   ('T', body)                           `try: body` / `except Exception: pass`
+# Programs that use only P / R / W are sent to the driver in the original grammar and run by `Prog.run`; the others go
+# through `XProg.run` (`Model/SettingsExt.lean`).
+
+def _is_ext(prog):
+    return any(isinstance(it, tuple) and (it[0] != "W" or _is_ext(it[3])) for it in prog)
+
+
+def _args(w, n, kw):
+    toks = []
+    for k, v in kw.items():
+        toks += [str(w.tr.T.f(k)), w.atom(v)]
+    return [str(w.tr.T.c(n)), str(len(kw))] + toks
+
+
 def encode(w, prog):
-    """prog: nested list of items: 'P' | 'R' | ('W', name, kwargs, body)."""
     out = []
     for it in prog:
         if it in ("P", "R"):
             out.append(it)
+        elif it[0] == "W":
+            out += ["W"] + _args(w, it[1], it[2]) + encode(w, it[3]).split() + ["E"]
+        elif it[0] == "M":
+            out += ["M", str(len(it[1]))]
+            for n, kw in it[1]:
+                out += _args(w, n, kw)
+            out += encode(w, it[2]).split() + ["E"]
+        elif it[0] in ("X", "T"):
+            out += [it[0]] + encode(w, it[1]).split() + ["E"]
+        elif it[0] == "C":
+            out += ["C"] + _args(w, it[1], it[2])
         else:
-            _, n, kw, body = it
-            toks = []
-            for k, v in kw.items():
-                toks += [str(w.tr.T.f(k)), w.atom(v)]
-            out += ["W", str(w.tr.T.c(n)), str(len(kw))] + toks + encode(w, body).split() + ["E"]
+            raise RuntimeError(f"unknown program item {it!r}")
     return " ".join(out)
+
+
+def _call(n, kw):
+    return f"{n}({', '.join(f'{k}={canon(v)}' for k, v in kw.items())})"
 
 
 def show(prog):
@@ -208,45 +281,226 @@ def show(prog):
             out.append("probe")
         elif it == "R":
             out.append("raise")
-        else:
-            _, n, kw, body = it
-            out.append(f"with {n}({', '.join(f'{k}={canon(v)}' for k, v in kw.items())}): [{show(body)}]")
+        elif it[0] == "W":
+            out.append(f"with {_call(it[1], it[2])}: [{show(it[3])}]")
+        elif it[0] == "M":
+            out.append(f"with {', '.join(_call(n, kw) for n, kw in it[1])}: [{show(it[2])}]")
+        elif it[0] == "X":
+            out.append(f"with ExitStack() as es: [{show(it[1])}]")
+        elif it[0] == "T":
+            out.append(f"try: [{show(it[1])}] except: pass")
+        elif it[0] == "C":
+            out.append(f"es.enter_context({_call(it[1], it[2])})")
     return "; ".join(out)
 
 
-def run_real(w, prog, trace, inner_checks, strict=False):
+def _spec_tables():
+    from translate import g1_settings as G
+    return G.DOCUMENTED_CTOR_DEFAULTS, G.NONE_MEANS_KEEP, G.COMPOSITE_OBS
+
+
+def _members(n):
+    """classes whose fields a block of class n legitimately changes"""
+    _, _, comp = _spec_tables()
+    return {n} | {m for m, _, _ in comp.get(n, {}).values()}
+
+
+def _pre(w, n):
+    """observed right BEFORE `n(**kw)` is constructed: every raw class field (frame oracle) and, for the per-dtype
+    settings, the visible values (an un-named field must keep them)."""
+    _, keep, _ = _spec_tables()
+    pre = {"raw": w.raw_list()}
+    if w.param_names(n) == list(keep):
+        pre["obs"] = {oname: canon(fn()) for oname, fn in w.observers(n).items()}
+    return pre
+
+
+def _post(w, n, kw, pre, inner_checks, suffix=""):
+    """spec oracle inside the block of `n(**kw)` (right after entry; `suffix` = '@after-nested' when the nested program
+    has finished normally).  Entries: (key, sentence, got, want)."""
+    dcd, keep, comp = _spec_tables()
+    obs = w.observers(n)
+    pn_all = w.param_names(n)
+    # innermost wins: observers show the arguments
+    for oname, fn in obs.items():
+        pn = OBS_PARAM.get(oname)
+        if pn in kw and kw[pn] is not None:
+            inner_checks.append((f"innermost:{n}.{oname}{suffix}", f"{n}.{oname} shows {{got}}, argument was {{want}}",
+                                 canon(fn()), canon(kw[pn])))
+    if not suffix:
+        # documented constructor defaults: an omitted argument shows its documented default
+        tab = dcd.get(n) or (dcd["*flag*"] if pn_all == ["state"] else {})
+        for oname, fn in obs.items():
+            pn = OBS_PARAM.get(oname)
+            if pn in tab and pn not in kw:
+                inner_checks.append((f"innermost:{n}.{oname}@omitted-arg",
+                                     f"{n}.{oname} shows {{got}}, the documented default of the omitted argument is {{want}}",
+                                     canon(fn()), tab[pn]))
+    # a field the block does NOT name keeps the value of the enclosing block (per-dtype settings: None = keep)
+    if pre is not None and "obs" in pre:
+        for oname, fn in obs.items():
+            pn = OBS_PARAM.get(oname)
+            if pn in keep and kw.get(pn) is None:
+                inner_checks.append((f"innermost:{n}.{oname}@unnamed-field{suffix.replace('@', '-')}",
+                                     f"{n}.{oname} shows {{got}} although the block does not name {pn}; the enclosing "
+                                     f"value is {{want}}", canon(fn()), pre["obs"][oname]))
+    # composite settings: the member's observer shows the argument / the fallback parameter / the documented default
+    for pn, (mname, moname, fallback) in comp.get(n, {}).items():
+        if kw.get(pn) is not None:
+            want = canon(kw[pn])
+        elif fallback is not None and kw.get(fallback) is not None:
+            want = canon(kw[fallback])
+        else:
+            want = dcd.get(n, {}).get(pn if fallback is None else fallback)
+        if want is None or mname not in w.real:
+            continue
+        inner_checks.append((f"innermost:{n}.{pn}->{mname}.{moname}{suffix}",
+                             f"{mname}.{moname} shows {{got}} inside {n}; specified: {{want}}",
+                             canon(w.observers(mname)[moname]()), want))
+    # frame: entering a block of class n changes no field of any other class
+    if pre is not None and not suffix:
+        mem = _members(n)
+        now = w.raw_list()
+        for (cn, f), a_, b_ in zip(w.slots, pre["raw"], now):
+            if cn not in mem and not (a_ is b_ or a_ == b_):
+                inner_checks.append((f"frame:{cn}.{f}", f"entering {_call(n, kw)} changed {cn}.{f} to {{got}} (was {{want}})",
+                                     canon(b_), canon(a_)))
+
+
+def run_real(w, prog, trace, inner_checks, strict=False, es=None):
     """Executes on the real classes (strict: warnings escalated to exceptions, like `python -W error`)."""
+    import contextlib
     import warnings
     for it in prog:
         if it == "P":
             trace.append(w.snapshot())
         elif it == "R":
             raise _Boom()
-        else:
+        elif it[0] == "W":
             _, n, kw, body = it
             with warnings.catch_warnings():
                 warnings.simplefilter("error" if strict else "ignore")
+                pre = _pre(w, n)
                 cm = w.real[n](**kw)   # may raise ValueError: nothing entered
                 with cm:
-                    # spec oracle (innermost wins): observers show the arguments right after entry
-                    for oname, fn in w.observers(n).items():
-                        pn = OBS_PARAM.get(oname)
-                        if pn in kw and kw[pn] is not None:
-                            inner_checks.append((n, oname, canon(fn()), canon(kw[pn])))
-                    # spec oracle (documented constructor defaults): an omitted argument shows its documented default
-                    from translate.g1_settings import DOCUMENTED_CTOR_DEFAULTS as _DCD
-                    tab = _DCD.get(n) or (_DCD["*flag*"] if [p for p, _ in w.descs[n]["params"]] == ["state"] else {})
-                    for oname, fn in w.observers(n).items():
-                        pn = OBS_PARAM.get(oname)
-                        if pn in tab and pn not in kw:
-                            inner_checks.append((n, oname + "@omitted-arg", canon(fn()), tab[pn]))
-                    run_real(w, body, trace, inner_checks, strict)
+                    _post(w, n, kw, pre, inner_checks)
+                    run_real(w, body, trace, inner_checks, strict, es=es)
                     # … and again after the nested program finished normally
-                    for oname, fn in w.observers(n).items():
-                        pn = OBS_PARAM.get(oname)
-                        if pn in kw and kw[pn] is not None:
-                            inner_checks.append((n, oname + "@after-nested", canon(fn()), canon(kw[pn])))
+                    _post(w, n, kw, pre, inner_checks, "@after-nested")
+        elif it[0] == "M":
+            _, ms, body = it
+            with warnings.catch_warnings():
+                warnings.simplefilter("error" if strict else "ignore")
+                R = w.real
+                if len(ms) == 2:
+                    (n1, k1), (n2, k2) = ms
+                    with R[n1](**k1), R[n2](**k2):
+                        _post(w, n2, k2, None, inner_checks)
+                        run_real(w, body, trace, inner_checks, strict)
+                        _post(w, n2, k2, None, inner_checks, "@after-nested")
+                elif len(ms) == 3:
+                    (n1, k1), (n2, k2), (n3, k3) = ms
+                    with R[n1](**k1), R[n2](**k2), R[n3](**k3):
+                        _post(w, n3, k3, None, inner_checks)
+                        run_real(w, body, trace, inner_checks, strict)
+                        _post(w, n3, k3, None, inner_checks, "@after-nested")
+                else:
+                    raise RuntimeError("multi-manager with: 2 or 3 managers")
+        elif it[0] == "X":
+            with contextlib.ExitStack() as stack:
+                run_real(w, it[1], trace, inner_checks, strict, es=stack)
+        elif it[0] == "C":
+            _, n, kw = it
+            with warnings.catch_warnings():
+                warnings.simplefilter("error" if strict else "ignore")
+                pre = _pre(w, n)
+                es.enter_context(w.real[n](**kw))
+            _post(w, n, kw, pre, inner_checks)
+        elif it[0] == "T":
+            try:
+                run_real(w, it[1], trace, inner_checks, strict, es=es)
+            except (_Boom, ValueError, Warning):
+                pass
+        else:
+            raise RuntimeError(f"unknown program item {it!r}")
     return False
+
+
+def _subsets(xs):
+    return [c for r in range(len(xs) + 1) for c in itertools.combinations(xs, r)]
+
+
+def field_rounds(name, cls, params):
+    """For a multi-field setting: list of (outer values, inner values), one value per constructor parameter; within a
+    tuple the values are pairwise distinct wherever the type allows (a float/double/half mix-up must be visible)."""
+    import torch
+    if params == ["float_value", "double_value", "half_value"]:
+        return [((0.11, 0.22, 0.33), (0.44, 0.55, 0.66))]
+    if params == ["state", "num_probe_vectors"]:
+        return [((True, 5), (False, 3)), ((False, 4), (True, 6))]
+    if params == ["covar_root_decomposition", "log_prob", "solves"]:
+        F, T = (False,) * 3, (True,) * 3
+        return [(F, F), (F, T), (T, F)]
+    if params == ["default", "symeig", "cholesky"]:
+        return [((torch.float, torch.half, torch.bfloat16), (torch.half, torch.bfloat16, torch.float))]
+    raise RuntimeError(f"no field values for multi-field constructor {name}({params})")
+
+
+def subset_programs(w):
+    """Every multi-field setting: a block naming every SUBSET of its fields (incl. none), alone and nested under a
+    block of the same class naming every subset (other values), every field probed inside, with and without raise."""
+    for n in w.exported:
+        params = w.param_names(n)
+        if len(params) < 2:
+            continue
+        for outer, inner in field_rounds(n, w.real[n], params):
+            for s1 in _subsets(range(len(params))):
+                k1 = {params[j]: outer[j] for j in s1}
+                for tail in ([], ["R"]):
+                    yield ["P", ("W", n, k1, ["P"] + tail), "P"]
+                for s2 in _subsets(range(len(params))):
+                    k2 = {params[j]: inner[j] for j in s2}
+                    for tail in ([], ["R"]):
+                        yield ["P", ("W", n, k1, ["P", ("W", n, k2, ["P"] + tail), "P"]), "P"]
+
+
+def raisers(w):
+    """(name, kwargs, needs_strict): managers that fail to enter — constructor raising (ValueError) or `__enter__`
+    raising (a warning escalated to an error)."""
+    out = []
+    if "observation_nan_policy" in w.real:
+        out.append(("observation_nan_policy", {"value": "bogus"}, False))
+    if "checkpoint_kernel" in w.real:
+        out.append(("checkpoint_kernel", {"value": 3}, True))
+    return out
+
+
+def ext_programs(w, tier, rng, blocks):
+    """multi-manager with / ExitStack / try-except re-entry programs (run by `XProg.run` on the model side)."""
+    first = {}
+    for n, kw in blocks:
+        first.setdefault(n, (n, kw))
+    firsts = list(first.values())
+    # a later manager fails to enter: the earlier ones must be exited; then the SAME setting is re-entered
+    for a in firsts:
+        for rn, rkw, _ in raisers(w):
+            yield ["P", ("T", [("M", [a, (rn, rkw)], ["P"])]), "P", ("W", a[0], a[1], ["P"]), "P"]
+            yield ["P", ("T", [("M", [a, (rn, rkw), a], ["P"])]), "P", ("M", [a, a], ["P"]), "P"]
+            yield ["P", ("T", [("X", [("C",) + a, "P", ("C", rn, rkw), "P"])]), "P", ("X", [("C",) + a, "P"]), "P"]
+            yield ["P", ("M", [a, (rn, rkw)], ["P"]), "P"]          # without try: the exception ends the program
+    # multi-manager with = nested blocks; ExitStack = nested blocks
+    k2, k3 = (500, 150) if tier == "quick" else (6000, 3000)
+    for _ in range(k2):
+        a, b = rng.choice(blocks), rng.choice(blocks)
+        tail = ["R"] if rng.random() < 0.3 else []
+        yield ["P", ("M", [a, b], ["P"] + tail), "P"]
+        yield ["P", ("X", [("C",) + a, "P", ("C",) + b, "P"] + tail), "P"]
+    for _ in range(k3):
+        a, b, c = (rng.choice(blocks) for _ in range(3))
+        tail = ["R"] if rng.random() < 0.3 else []
+        yield ["P", ("M", [a, b, c], ["P"] + tail), "P"]
+        yield ["P", ("W", a[0], a[1], ["P", ("X", ["P", ("C",) + b, ("W", c[0], c[1], ["P"] + tail), ("C",) + a, "P"]), "P"]), "P"]
+        yield ["P", ("X", [("C",) + a, ("T", [("M", [b, c], ["P", "R"])]), "P", ("X", [("C",) + c, "P"]), "P"]), "P"]
 
 
 def programs(w, tier, rng):
@@ -279,6 +533,160 @@ def programs(w, tier, rng):
             yield ["P", ("W", a[0], a[1], mid + (["R"] if r1 else [])), "P"]
         else:  # sequential composition after an exception-free block
             yield ["P", ("W", a[0], a[1], ["P"]), ("W", b[0], b[1], inner), "P"]
+    # wave 3: subsets of the fields of every multi-field setting; multi-manager with / ExitStack / try-except
+    yield from subset_programs(w)
+    yield from ext_programs(w, tier, rng, blocks)
+
+
+# ------------------------------------------------------------------ threads / decorators / ExitStack misuse
+
+def run_threads(w, events):
+    """Execute one global interleaving of thread events on the real classes, each thread holding REAL nested `with`
+    blocks open: events ('e', t, name, kwargs) | ('x', t) | ('p', t).  The main thread hands one event at a time to the
+    worker of thread t and waits for its acknowledgement, so the global order is exactly `events`.  Returns the probes."""
+    import queue
+    import threading
+    trace = []
+
+    class Worker(threading.Thread):
+        def __init__(self):
+            super().__init__(daemon=True)
+            self.q, self.ack = queue.Queue(), queue.Queue()
+
+        def run(self):
+            self.serve(True)
+
+        def serve(self, top):
+            while True:
+                cmd = self.q.get()
+                if cmd[0] == "e":
+                    try:
+                        with w.real[cmd[1]](**cmd[2]):
+                            self.ack.put("entered")
+                            self.serve(False)
+                        self.ack.put("exited")
+                    except Exception as e:   # constructor / __enter__ raised: nothing entered
+                        self.ack.put(f"error {type(e).__name__}")
+                elif cmd[0] == "x":
+                    if top:
+                        self.ack.put("nothing-open")
+                    else:
+                        return
+                elif cmd[0] == "p":
+                    trace.append(w.snapshot())
+                    self.ack.put("probed")
+                else:
+                    return
+
+    workers = {}
+    try:
+        for ev in events:
+            t = ev[1]
+            if t not in workers:
+                workers[t] = Worker()
+                workers[t].start()
+            workers[t].q.put(("e", ev[2], ev[3]) if ev[0] == "e" else (ev[0],))
+            workers[t].ack.get(timeout=30)
+    finally:
+        for wk in workers.values():
+            for _ in range(8):     # close whatever is still open, then stop
+                wk.q.put(("x",))
+            wk.q.put(("q",))
+        for wk in workers.values():
+            wk.join(timeout=30)
+    return trace
+
+
+def encode_threads(w, events):
+    out = []
+    for ev in events:
+        if ev[0] == "e":
+            out += ["e", str(ev[1])] + _args(w, ev[2], ev[3])
+        else:
+            out += [ev[0], str(ev[1])]
+    return " ".join(out)
+
+
+def show_threads(events):
+    return "; ".join((f"T{ev[1]} enters {_call(ev[2], ev[3])}" if ev[0] == "e" else
+                      f"T{ev[1]} leaves its block" if ev[0] == "x" else f"T{ev[1]} probes") for ev in events)
+
+
+def side_cells(ctx, w, base, base_raw, lines, recs, want_driver):
+    """Cells about what is NOT claimed / not supported, compared with the model (`runThreads`, `XProg.run`) so that a
+    change of the documented behaviour shows as a broken tie: (1) the settings are ONE process-global store — a block
+    of thread A is visible in thread B, globally well-nested blocks of two threads restore, interleaved ones need not;
+    (2) the classes cannot be used as decorators; (3) ExitStack.enter_context inside a nested with block."""
+    import contextlib
+    import warnings
+    with warnings.catch_warnings():
+        warnings.simplefilter("ignore")
+        for n in w.exported:
+            vs = []
+            for kw in variants(n, w.real[n], w.descs[n]):
+                try:
+                    w.real[n](**kw)
+                    vs.append(kw)
+                except ValueError:
+                    pass
+            if not vs:
+                continue
+            # (2) decorators
+            inst = w.real[n](**vs[0])
+            ctx.case(f"decorator {n}", nontrivial=True)
+            if callable(inst) or issubclass(w.real[n], contextlib.ContextDecorator):
+                ctx.broke("correspondence", f"decorator-use:{n}",
+                          f"instances of {n} are callable / ContextDecorators: use as a decorator is possible but NOT modelled")
+            # (1) threads
+            ka, kb = vs[0], vs[1 % len(vs)]
+            scen = {
+                "visible": [("e", 0, n, ka), ("p", 1), ("x", 0), ("p", 1)],
+                "lifo": [("e", 0, n, ka), ("e", 1, n, kb), ("p", 0), ("x", 1), ("p", 0), ("x", 0), ("p", 1)],
+                "interleaved": [("e", 0, n, ka), ("e", 1, n, kb), ("x", 0), ("p", 1), ("x", 1), ("p", 0)],
+            }
+            for sname, evs in scen.items():
+                text = f"[threads:{sname}] {show_threads(evs)}"
+                trace = run_threads(w, evs)
+                final = w.snapshot()
+                ctx.case(text, nontrivial=True)
+                ctx.count("thread_cells")
+                # documented behaviour, judged directly on the real classes: the other thread SEES the block
+                if sname == "visible":
+                    for oname, fn in w.observers(n).items():
+                        pn = OBS_PARAM.get(oname)
+                        if pn in ka and ka[pn] is not None:
+                            d = dict(zip(w.slots, trace[0]))
+                            vis = [w.atoms[int(v)] if v != "N" else "None" for (cn, f), v in d.items() if cn == n]
+                            if canon(ka[pn]) not in vis and trace[0] == base:
+                                ctx.broke("correspondence", f"thread-visibility:{n}",
+                                          f"`{text}`: thread 1 does not see the block of thread 0 — the settings look "
+                                          f"thread-local; the model (and every theorem) assumes ONE process-global store")
+                if sname != "interleaved" and final != base:
+                    for (cn, f), a_, b_ in zip(w.slots, base, final):
+                        if a_ != b_:
+                            ctx.fail(f"leak:{cn}.{f}", f"after `{text}` (globally well nested) {cn}.{f} is "
+                                     f"{w.atoms[int(b_)] if b_ != 'N' else None!r}, was {w.atoms[int(a_)] if a_ != 'N' else None!r}",
+                                     {"threads": text, "field": f"{cn}.{f}"})
+                if want_driver:
+                    lines.append("TL " + encode_threads(w, evs))
+                    recs.append((text, False, w.project(final), [w.project(t) for t in trace], ""))
+                if final != base:
+                    w.restore(base_raw)     # interleaved blocks of two threads: documented non-claim
+            # (3) ExitStack misuse (non-claim): compared with the model only
+            if len(w.param_names(n)) >= 1 and want_driver:
+                prog = ["P", ("X", [("W", n, ka, [("C", n, kb), "P"]), "P"]), "P"]
+                text = "[non-claim:exitstack-escape] " + show(prog)
+                trace, inner = [], []
+                try:
+                    run_real(w, prog, trace, inner, False)
+                except (_Boom, ValueError, Warning):
+                    pass
+                final = w.snapshot()
+                ctx.case(text, nontrivial=True)
+                lines.append("XL " + encode(w, prog))
+                recs.append((text, False, w.project(final), [w.project(t) for t in trace], ";pending=0"))
+                if final != base:
+                    w.restore(base_raw)
 
 
 def correspondence(ctx, want_driver=True):
@@ -329,20 +737,33 @@ def correspondence(ctx, want_driver=True):
         for n in {it[1] for it in _walk(prog)}:
             kinds[n] = kinds.get(n, 0) + 1
         # --- spec oracle, on the real classes only
+        leaked = set()
         if final != base:
             for (n, f), a, b in zip(w.slots, base, final):
                 if a != b:
+                    leaked.add(f"{n}.{f}")
                     ctx.fail(f"leak:{n}.{f}", f"after `{text}` {n}.{f} is {w.atoms[int(b)] if b != 'N' else None!r}, "
                              f"was {w.atoms[int(a)] if a != 'N' else None!r} before the block",
                              {"program": text, "strict": strict, "field": f"{n}.{f}"})
             w.restore(base_raw)
-        for n, oname, got, want in inner:
+        seen_keys = set()
+        for key, sentence, got, want in inner:
             if got != want:
-                ctx.fail(f"innermost:{n}.{oname}", f"inside `{text}` {n}.{oname} shows {got}, argument was {want}",
-                         {"program": text, "observer": oname})
+                # exact signature of "`__exit__` does not restore a None": the value a NESTED block left behind is
+                # seen in the enclosing block whose own value of that un-named field was None, and the same field is
+                # also reported as leaked at the end of this program -> same root cause, reported under the leak key
+                m = _re0.match(r"innermost:(\w+)\.value\(torch\.(\w+)\)@unnamed-field-after-nested$", key)
+                if m and want == "None" and f"{m.group(1)}._global_{m.group(2)}_value" in leaked:
+                    key = f"leak:{m.group(1)}._global_{m.group(2)}_value"
+            if got != want and key not in seen_keys:
+                seen_keys.add(key)
+                ctx.fail(key, f"inside `{text}` " + sentence.format(got=got, want=want),
+                         {"program": text, "strict": strict, "check": key, "got": got, "want": want})
         if want_driver:
-            lines.append(("S " if strict else "L ") + encode(w, prog))
-            recs.append((text, raised, w.project(final), [w.project(t) for t in trace]))
+            ext = _is_ext(prog)
+            lines.append(("X" if ext else "") + ("S " if strict else "L ") + encode(w, prog))
+            recs.append((text, raised, w.project(final), [w.project(t) for t in trace], ";pending=0" if ext else ""))
+            ctx.count("xprog_lines" if ext else "prog_lines")
     # --- spec oracle: outside all blocks every setting reports its documented default (docstring of the real class)
     import ast as _ast
     import re as _re
@@ -407,45 +828,74 @@ def correspondence(ctx, want_driver=True):
                                      {"class": n, "kwargs": repr(kw), "shape": shape, "field": f"{cn}.{f}"})
                     w.restore(base_raw)
     ctx.count("reuse_programs", reent)
+    side_cells(ctx, w, base, base_raw, lines, recs, want_driver)
     ctx.notes["classes_exercised"] = len(kinds)
     ctx.notes["blocks_per_class_min"] = min(kinds.values()) if kinds else 0
     if not want_driver:
+        _maybe_deepen(ctx)
         return
     # --- model correspondence
+    import time as _time
+    _t0 = _time.time()
     replies = C.run_driver("C20", lines)
+    ctx.notes["driver_wall_s"] = round(_time.time() - _t0, 1)
     mism = 0
-    for (text, raised, final, trace), line, rep in zip(recs, lines, replies):
-        want = f"raised={1 if raised else 0};final={','.join(final)};trace=" + "|".join(",".join(t) for t in trace)
+    for (text, raised, final, trace, sfx), line, rep in zip(recs, lines, replies):
+        want = f"raised={1 if raised else 0};final={','.join(final)};trace=" + "|".join(",".join(t) for t in trace) + sfx
         if rep != want:
             mism += 1
             if mism <= 5:
                 # locate the first differing slot for the key
                 key = "model-mismatch"
+                if text.startswith("[threads:"):
+                    key = "thread-shared-store"
+                elif text.startswith("[non-claim:"):
+                    key = "exitstack-escape"
                 try:
                     rf = rep.split(";")[1][len("final="):].split(",")
                     d = [w.model_slots[i] for i, (a, b) in enumerate(zip(rf, final)) if a != b]
                     if d:
-                        key = f"model-mismatch:{d[0][0]}.{d[0][1]}"
+                        key = f"{key}:{d[0][0]}.{d[0][1]}"
                 except Exception:
                     pass
                 ctx.broke("correspondence", key, f"program `{text}`\nmodel: {rep[:300]}\nreal:  {want[:300]}")
     ctx.count("driver_lines", len(lines))
     ctx.count("model_mismatches", mism)
+    # run.py starts `search` only when there are no failures at all; the known cholesky_jitter finding always fires, so
+    # when a proof / the tie broke (incl. a model mismatch above) and nothing BUT that known key failed, deepen here
+    _maybe_deepen(ctx)
 
 
 def _walk(prog):
+    """every manager a program constructs, as ('W', name, kwargs, …) tuples"""
     for it in prog:
-        if isinstance(it, tuple):
+        if not isinstance(it, tuple):
+            continue
+        if it[0] == "W":
             yield it
             yield from _walk(it[3])
+        elif it[0] == "M":
+            for n, kw in it[1]:
+                yield ("W", n, kw, [])
+            yield from _walk(it[2])
+        elif it[0] == "C":
+            yield ("W", it[1], it[2], [])
+        elif it[0] in ("X", "T"):
+            yield from _walk(it[1])
 
 
-def search(ctx, broken):
+def _maybe_deepen(ctx):
+    if ctx.broken and all(f["key"] == _ALWAYS_KNOWN for f in ctx.failures):
+        search(ctx, ctx.broken, force=True)
+
+
+def search(ctx, broken, force=False):
     """The proof or the tie broke.  The spec oracle inside `correspondence` is independent of the model and of
     the translator (the real classes are discovered reflectively), so it has already run over the full program
     set; if it reported nothing, deepen once with the thorough program set."""
-    if ctx.failures or ctx.tier == "thorough":
+    if (ctx.failures and not force) or ctx.tier == "thorough" or _state.get("deepened"):
         return
+    _state["deepened"] = True
     ctx.tier = "thorough"
     try:
         correspondence(ctx, want_driver=False)
@@ -456,14 +906,42 @@ def search(ctx, broken):
 def replay(ctx, payload):
     """Re-run one recorded program on the real classes; True when it no longer fails."""
     w = World()
-    want = payload["case"]["program"].replace("[-W error] ", "")
-    strict = bool(payload["case"].get("strict"))
+    case = payload.get("case") or {}
+    if "shape" in case and "class" in case:      # ONE context object used twice
+        import torch
+        import warnings
+        n, kw, shape = case["class"], eval(case["kwargs"], {"torch": torch}), case["shape"]
+        base = w.snapshot()
+        with warnings.catch_warnings():
+            warnings.simplefilter("ignore")
+            try:
+                cobj = w.real[n](**kw)
+                if shape == "sequential":
+                    with cobj:
+                        pass
+                    with cobj:
+                        pass
+                else:
+                    with cobj:
+                        with cobj:
+                            if shape == "nested-raise":
+                                raise _Boom()
+            except (_Boom, ValueError):
+                pass
+        return w.snapshot() == base
+    if "program" not in case:                    # thread / side cells are broken-tie reports, not replayable inputs
+        return True
+    want = case["program"].replace("[-W error] ", "")
+    strict = bool(case.get("strict"))
     for prog in programs(w, "thorough", ctx.rng("programs")):
         if show(prog) == want:
             base = w.snapshot()
+            inner = []
             try:
-                run_real(w, prog, [], [], strict)
+                run_real(w, prog, [], inner, strict)
             except (_Boom, ValueError, Warning):
                 pass
-            return w.snapshot() == base
+            want_key = payload["case"].get("check")
+            bad = [k for k, _, got, want in inner if got != want and (want_key is None or k == want_key)]
+            return w.snapshot() == base and not bad
     return True
